@@ -710,6 +710,8 @@ func TestProp(t *testing.T) {
 		return
 	}
 	defer r.Finish()
+	var pool evid.Pool[Case] // rapid-drawn cases, evaluated side by side once more at the end
+	defer func() { evid.Concurrent(r, &pool, 16, Eval) }()
 	r.Regress()
 	if err := kc.SelfTest(map[string]string{"KRB5_CONF": testdata.KRB5_CONF, "KRB5_CONF_AD": testdata.KRB5_CONF_AD}); err != nil {
 		r.Inconclusive("reference krb5.conf model self-test failed: %v", err)
@@ -778,6 +780,9 @@ func TestProp(t *testing.T) {
 		}
 		r.Sample(check+"/"+cls, c)
 		if rt != nil {
+			if v.OK {
+				pool.Add(check, c)
+			}
 			if r.Judge(check, c, v) {
 				rt.Fatalf("violation %s", v.Sig)
 			}
